@@ -68,6 +68,35 @@ def _o2(name):
     return f
 
 
+def _c12_hybrid(a, col):
+    from pwv import contracts
+    from pwv.drivers_pure import c12_driver
+    from pwv.worker import run_programs
+    contracts.install(("ops",))
+    full = a.budget
+    a.budget = full * 0.55
+    c12_driver(a, col)
+    a.budget = full
+    conf = {"profile": "ops", "oracles": [_o2("judge_c12_step")], "opts": {"approx_ops": True, "weights": {"applyc": 4}}}
+    run_programs("C12", conf, a.tier, a.seed, a.shard, a.nshards, full * 0.45, col)
+    col.extra["contract_evaluations"] = dict(contracts.COUNT)
+
+
+def _c16_hybrid(a, col):
+    from pwv import contracts
+    from pwv.drivers_pure import c16_driver
+    from pwv.worker import run_programs
+    contracts.install(("interpreter",))
+    full = a.budget
+    a.budget = full * 0.6
+    c16_driver(a, col)
+    a.budget = full
+    conf = {"profile": "ops", "oracles": [_o2("judge_c16_step")],
+            "opts": {"approx_ops": False, "fock_types": ["Expresion"], "comp_types": ["Expression"], "weights": {"applyc": 6, "apply1": 6}}}
+    run_programs("C16", conf, a.tier, a.seed, a.shard, a.nshards, full * 0.4, col)
+    col.extra["contract_evaluations"] = dict(contracts.COUNT)
+
+
 _C08_PROG = {"profile": "levels", "oracles": [_o2("judge_c08")], "opts": {"approx_ops": False}}
 _C10_PROG = {"profile": "resize", "oracles": [_o2("judge_resize"), _o2("judge_truncation")],
              "opts": {"env_max": 2, "cus_max": 1, "fock_types": ["Displace", "Squeeze", "Creation", "Annihilation", "PhaseShift", "Custom"]}}
@@ -93,21 +122,21 @@ PROPS = {
             "rule": "eleven kinds of invalid request (non trace preserving / wrong-size Kraus, wrong-size POVM and custom operators, wrong subsystem kind, operand outside the envelope/composite, annihilating the vacuum, shrinking below occupied levels, destroyed subsystem, missing parameter, duplicate operands) injected after random steps of valid programs at every entry point; judged: rejected (exception or documented failure value), joint state unchanged, object graph well formed, valid continuation judged by the transition oracles; cell = (fault kind, call, entry, storage, level)"},
     "C18": {"driver": _lazy("pwv.twin", "c18_twin"), "profile": "collide-twin",
             "rule": "metamorphic twins: a world whose subsystems hold numerically equal states vs (labels mode) the same world with distinct labels of the same kind and level - structure compared: exceptions, outcome key sets, live sets, storage partition, returned shapes - or (arrays mode) the same physical world with every vector given its own global phase - structure and joint state compared after every step; cell = (twin, mode, step kind, entry, #operands)"},
-    "C12": {"driver": _lazy("pwv.drivers_pure", "c12_driver"), "profile": "contract-sweep",
+    "C12": {"driver": _c12_hybrid, "profile": "contract-sweep + in-situ", "replay_oracles": [_o2("judge_c12_step")],
             "rule": "contract on every operator constructor of photon_weave._math.ops and on Operation(...).operator, evaluated on a parameter sweep (angles in [-4pi, 6pi], complex alpha/zeta of any phase, cutoffs 1..24 quick / 1..40 thorough) against an independent numpy/scipy operator library plus algebraic identities; a case = one contract/identity evaluation; cell = (function, parameter class); every cell is non-trivial except none (no fresh-label notion here)"},
-    "C16": {"driver": _lazy("pwv.drivers_pure", "c16_driver"), "profile": "contract-trees",
+    "C16": {"driver": _c16_hybrid, "profile": "contract-trees + in-situ", "replay_oracles": [_o2("judge_c16_step")],
             "rule": "contract on photon_weave.extra.expression_interpreter.interpreter (every nested evaluation) comparing the value with an independent evaluator run on a pre-call deep copy, byte-comparing caller-owned array leaves and context results before/after, checking the dimension list handed to the context, and malformed head symbols; random trees over all seven commands with numeric/numpy/jax/context-name leaves; a case = one judged evaluation; cell = (head command, tree depth | check kind)"},
     "C19": {"driver": _lazy("pwv.drivers_pure", "c19_driver"), "profile": "contract-overlap",
             "rule": "contract on Envelope.overlap_integral against the closed-form Gaussian overlap, plus exchange symmetry; pulse widths log-uniform over 1e-15..10 s including the 42.45 fs default, centre offsets and delays 0..8 widths, both argument orders; a case = one judged call; cell = (decade of the narrower width, equal/unequal widths, delay in widths)"},
     "C01": {"profile": "ops", "oracles": [lambda r: O.judge_apply(r, "C01")]},
     "C02": {"profile": "structure", "oracles": [O.judge_c02]},
     "C03": {"profile": "composite", "oracles": [lambda r: O.judge_apply(r, "C03")]},
-    "C04": {"profile": "measure", "oracles": [lambda r: O.judge_measure(r, "C04")]},
+    "C04": {"profile": "measure", "oracles": [lambda r: O.judge_measure(r, "C04")], "free_mix": 0.25},
     "C05": {"profile": "measure", "oracles": [lambda r: O.judge_measure(r, "C05"), O.judge_dead_probe],
-            "post_step": _dead_probe_hook},
+            "post_step": _dead_probe_hook, "free_mix": 0.15},
     "C06": {"profile": "kraus", "oracles": [O.judge_c06]},
     "C07": {"profile": "invariants", "oracles": [O.judge_c07]},
-    "C09": {"profile": "povm", "oracles": [O.judge_c09]},
+    "C09": {"profile": "povm", "oracles": [O.judge_c09], "free_mix": 0.2},
     "C13": {"profile": "graph", "oracles": [O.judge_c13], "opts": {"env_max": 4}},
     "C20": {"profile": "blocks", "oracles": [O.judge_c20]},
 }
